@@ -395,3 +395,13 @@ def r12(ctx):
 
 
 RULES.append(("C11.R12", "T2-loop", "a READ selects every one of its object headers (an unsupported header does not end the walk)", r12))
+
+
+def r13(ctx):
+    """'a READ is answered with' what it asked for: the READ header of a specific variation selects the static variation of the same
+    name (C09.R15, shared code)."""
+    import c09
+    c09.r15(ctx)
+
+
+RULES.append(("C11.R13", "T4-namesake", "a READ of Group<g>Var<v> selects the static variation of that name (shared with C09.R15)", r13))
